@@ -125,9 +125,14 @@ func nFeat(n int) string {
 	}
 }
 
-var offeredCache = map[int][]int{}
+var (
+	offeredCache = map[int][]int{}
+	offeredMu    sync.Mutex // offered is called from the concurrent families too
+)
 
 func offered(n int) []int {
+	offeredMu.Lock()
+	defer offeredMu.Unlock()
 	if p, ok := offeredCache[n]; ok {
 		return p
 	}
@@ -262,23 +267,40 @@ func hashConc(r *rand.Rand, scale float64) {
 // the calls, must be the model's round-robin sequence over 0..n-1 — across calls, not only
 // within one call.
 type wrtRT struct {
-	mu    sync.Mutex
-	n     int
-	parts []int
+	mu     sync.Mutex
+	n      int
+	topics map[string]int // multi-topic variant: partition count per topic
+	parts  []int
+	recs   []string // "topic/partition:value" per produced record (multi-topic variant)
 }
 
 func (f *wrtRT) RoundTrip(ctx context.Context, addr net.Addr, req protocol.Message) (protocol.Message, error) {
 	switch r := req.(type) {
 	case *metadata.Request:
-		ps := make([]metadata.ResponsePartition, f.n)
-		for i := range ps {
-			ps[i] = metadata.ResponsePartition{PartitionIndex: int32(i), LeaderID: 1, ReplicaNodes: []int32{1}, IsrNodes: []int32{1}}
+		mk := func(n int) []metadata.ResponsePartition {
+			ps := make([]metadata.ResponsePartition, n)
+			for i := range ps {
+				ps[i] = metadata.ResponsePartition{PartitionIndex: int32(i), LeaderID: 1, ReplicaNodes: []int32{1}, IsrNodes: []int32{1}}
+			}
+			return ps
 		}
-		return &metadata.Response{
+		res := &metadata.Response{
 			Brokers:      []metadata.ResponseBroker{{NodeID: 1, Host: "broker.test", Port: 9092}},
 			ControllerID: 1,
-			Topics:       []metadata.ResponseTopic{{Name: "t", Partitions: ps}},
-		}, nil
+		}
+		if f.topics != nil {
+			var names []string
+			for name := range f.topics {
+				names = append(names, name)
+			}
+			sort.Strings(names)
+			for _, name := range names {
+				res.Topics = append(res.Topics, metadata.ResponseTopic{Name: name, Partitions: mk(f.topics[name])})
+			}
+		} else {
+			res.Topics = []metadata.ResponseTopic{{Name: "t", Partitions: mk(f.n)}}
+		}
+		return res, nil
 	case *produce.Request:
 		res := &produce.Response{}
 		f.mu.Lock()
@@ -296,6 +318,10 @@ func (f *wrtRT) RoundTrip(ctx context.Context, addr net.Addr, req protocol.Messa
 							rec.Key.Close()
 						}
 						if rec.Value != nil {
+							if f.topics != nil {
+								b, _ := protocol.ReadAll(rec.Value)
+								f.recs = append(f.recs, fmt.Sprintf("%s/%d:%s", t.Topic, p.Partition, string(b)))
+							}
 							rec.Value.Close()
 						}
 						n++
@@ -374,6 +400,89 @@ func writerCases(r *rand.Rand, count int) {
 			cfg = fmt.Sprintf("%x", chunk)
 		}
 		emit("wrt", fmt.Sprintf("%s %x %s", cfg, n, strings.Join(sizes, ",")), res, fmt.Sprintf("writer,calls=%d,%s", calls, map[bool]string{true: "default-balancer", false: "roundrobin-chunk"}[chunk == 0]))
+	}
+}
+
+// wrtm: a Writer without a Topic whose messages carry their own topic, topics with DIFFERENT
+// partition counts interleaved in one WriteMessages call (A, B, A ...).  A recording
+// BalancerFunc around CRC32Balancer{Consistent} notes the partition list it is offered for
+// every message; the list must be 0..n-1 of the MESSAGE's topic, and the record must reach the
+// partition the balancer returns for that list.
+func writerMultiTopicCases(r *rand.Rand, count int) {
+	for i := 0; i < count; i++ {
+		topics := map[string]int{"alpha": 1 + r.Intn(8), "beta": 1 + r.Intn(8), "gamma": 1 + r.Intn(8)}
+		names := []string{"alpha", "beta", "gamma"}
+		rt := &wrtRT{topics: topics}
+		var mu sync.Mutex
+		bad := ""
+		inner := kafka.CRC32Balancer{Consistent: true}
+		want := map[string]string{} // value -> "topic/partition"
+		bal := kafka.BalancerFunc(func(msg kafka.Message, partitions ...int) int {
+			n := topics[msg.Topic]
+			ok := len(partitions) == n
+			for j := 0; ok && j < n; j++ {
+				ok = partitions[j] == j
+			}
+			p := inner.Balance(msg, partitions...)
+			mu.Lock()
+			if !ok && bad == "" {
+				bad = fmt.Sprintf("OFFERED:%s:%x:%s", msg.Topic, n, kvfmt.Ints(partitions))
+			}
+			exp := inner.Balance(msg, offered(n)...)
+			want[string(msg.Value)] = fmt.Sprintf("%s/%d", msg.Topic, exp)
+			mu.Unlock()
+			return p
+		})
+		w := &kafka.Writer{Addr: kafka.TCP("broker.test:9092"), Transport: rt, Balancer: bal, BatchTimeout: time.Millisecond, MaxAttempts: 1}
+		calls := 1 + r.Intn(3)
+		total := 0
+		var pattern []string
+		for c := 0; c < calls && bad == ""; c++ {
+			k := 2 + r.Intn(7)
+			msgs := make([]kafka.Message, k)
+			for j := range msgs {
+				tname := names[r.Intn(3)]
+				if j == 2 { // A, B, A at the head of every call
+					tname = msgs[0].Topic
+				} else if j == 1 {
+					for tname == msgs[0].Topic {
+						tname = names[r.Intn(3)]
+					}
+				}
+				msgs[j] = kafka.Message{Topic: tname, Key: []byte(fmt.Sprintf("key-%d-%d", i, total+j)), Value: []byte(fmt.Sprintf("v%d", total+j))}
+				pattern = append(pattern, tname[:1])
+			}
+			ctx, cancel := context.WithTimeout(context.Background(), 5*time.Second)
+			err := w.WriteMessages(ctx, msgs...)
+			cancel()
+			if err != nil {
+				bad = "ERR:" + strings.ReplaceAll(err.Error(), " ", "_")
+			}
+			total += k
+		}
+		w.Close()
+		res := "ok"
+		if bad != "" {
+			res = bad
+		} else {
+			rt.mu.Lock()
+			got := map[string]string{}
+			for _, rec := range rt.recs {
+				tp, v, _ := strings.Cut(rec, ":")
+				got[v] = tp
+			}
+			rt.mu.Unlock()
+			for v, tp := range want {
+				if got[v] != tp {
+					res = fmt.Sprintf("PRODUCED:%s:%s:expected:%s", v, got[v], tp)
+					break
+				}
+			}
+			if res == "ok" && len(got) != total {
+				res = fmt.Sprintf("COUNT:%x:%x", len(got), total)
+			}
+		}
+		emit("wrtm", fmt.Sprintf("%x,%x,%x %s", topics["alpha"], topics["beta"], topics["gamma"], strings.Join(pattern, "")), res, fmt.Sprintf("writer,multi-topic,calls=%d", calls))
 	}
 }
 
@@ -698,6 +807,7 @@ func main() {
 	}
 	hashConc(r, 1)
 	writerCases(r, 24)
+	writerMultiTopicCases(r, 16)
 	// The list the Writer offers to its balancer (writer.go loadCachedPartitions): it must be
 	// 0..n-1 for every caller, also while another caller grows the process-wide cache.  The
 	// counts grow from call to call so that every round contains growth events.
